@@ -159,9 +159,9 @@ POOLONLY = ('tostring', 'toformatstring', 'getkeyset', 'tokeyset')
 # paths budget directives per harness kind
 DIRECTIVE = {
     ('C09', 'Pool'): 'paths=200000 deadline=3m t.paths=4000000 t.deadline=30m',
-    ('C09', 'Symbolic'): 'paths=50000 deadline=3m t.paths=2000000 t.deadline=30m',
+    ('C09', 'Symbolic'): 'paths=50000 deadline=3m t.paths=1000000 t.deadline=40m',
     ('C12', 'Pool'): 'paths=100000 deadline=2m t.paths=2000000 t.deadline=30m',
-    ('C12', 'Symbolic'): 'paths=50000 deadline=2m t.paths=2000000 t.deadline=30m',
+    ('C12', 'Symbolic'): 'paths=50000 deadline=2m t.paths=1000000 t.deadline=40m',
 }
 
 # ----------------------------------------------------------------------------------------------
@@ -248,6 +248,31 @@ func zzLKNew(sym bool, seen *[]*zzLK, poolN int) *zzLK {
 	}
 	p := zzLKPool[zzvf.Choose(zzMin(poolN, len(zzLKPool)))]
 	return &zzLK{h: p.h, id: p.id}
+}
+
+// table configurations: initial capacity x load factor
+type zzCfg struct {
+	cap int
+	lf  float32
+}
+
+var zzCfgAll = []zzCfg{{1, 0.75}, {1, 1.0}, {2, 0.75}, {2, 1.0}, {3, 0.75}, {3, 1.0}}
+
+// Symbolic harness, quick tier (<= 2 keys): (2,1.0), (3,0.75), (3,1.0) never grow and differ only in
+// the table size, one of them is kept
+var zzCfgSymQuick = []zzCfg{{1, 0.75}, {1, 1.0}, {2, 0.75}, {3, 1.0}}
+
+// Symbolic harness, thorough tier (<= 3 keys): capacities 1 and 2 (growth 1->3->7 and 2->5)
+var zzCfgSymThorough = []zzCfg{{1, 0.75}, {1, 1.0}, {2, 0.75}, {2, 1.0}}
+
+func zzCfgs(sym bool) []zzCfg {
+	if !sym {
+		return zzCfgAll
+	}
+	if zzvf.Thorough() {
+		return zzCfgSymThorough
+	}
+	return zzCfgSymQuick
 }
 
 func zzMin(a, b int) int {
@@ -769,9 +794,10 @@ func zzDo_%(N)s(m *%(N)s, ref *zzM_%(N)s, opn string, sym bool, what string) str
             if o in putmeth:
                 meth, mode, add = putmeth[o]
                 w('	case "%s":' % o)
-                keyhead()
+                w(getk)
                 if self.k == 'str':
                     w('		if len(k) == 0 {')
+                    w('			name += "/emptykey"')
                     w('			ref.emptyKey = true')
                     w('			defer zzStoredEmpty_%s(m, ref, name)' % N)
                     w('		}')
@@ -966,13 +992,13 @@ func zzDo_%(N)s(m *%(N)s, ref *zzM_%(N)s, opn string, sym bool, what string) str
         w = self.w
         w('''// zzRun_%(N)s: one bounded history.
 // configuration (Choose): table capacity 1..3 (growth 1->3->7, 2->5->11, 3->7->15 happens inside the
-// bound), load factor 0.75 / 1.0%(maxdoc)s; prefix of insertions, then arbitrary public operations, then the
-// complete observable state is compared with the model.
+// bound) x load factor 0.75 / 1.0 (see zzCfgs)%(maxdoc)s; prefix of insertions, then arbitrary
+// public operations, then the complete observable state is compared with the model.
 func zzRun_%(N)s(sym bool, nIns, nOps, poolN int) {
 	what := "%(N)s"
-	cap := 1 + zzvf.Choose(3)
-	lf := []float32{0.75, 1.0}[zzvf.Choose(2)]
-	m := zzNew_%(N)s(cap, lf)
+	cfgs := zzCfgs(sym)
+	cfg := cfgs[zzvf.Choose(len(cfgs))]
+	m := zzNew_%(N)s(cfg.cap, cfg.lf)
 	ref := &zzM_%(N)s{poolN: poolN}''' % dict(N=N, maxdoc=', maximum size 0 (unbounded) / 1 / 2' if self.linked else ''))
         if self.linked:
             w('''	nMax := 3
@@ -1032,7 +1058,7 @@ func ZZ_%(P)s_%(N)s_Pool() {
 }
 
 // Symbolic: ALL keys and values symbolic%(lkdoc)s. Bounds: prefix of <= 1 insertion
-// (thorough 2) + 1 operation; capacities 1..3.
+// (thorough 2) + 1 operation; table configurations: zzCfgSymQuick / zzCfgSymThorough.
 //vf:%(dirs)s
 func ZZ_%(P)s_%(N)s_Symbolic() {
 	if zzvf.Thorough() {
